@@ -102,6 +102,13 @@ func getUniverse() *Universe {
 				u.PGP = append(u.PGP, e)
 			}
 		}
+		// an entity that also owns a signing-capable subkey (as `gpg --quick-add-key … sign` makes):
+		// signatures are still made and named by the primary key
+		if e, err := openpgp.NewEntity("verif-sub", "", "sub@example.com", &packet.Config{Algorithm: packet.PubKeyAlgoEdDSA}); err == nil {
+			if e.AddSigningSubkey(&packet.Config{Algorithm: packet.PubKeyAlgoEdDSA}) == nil {
+				u.PGP = append(u.PGP, e)
+			}
+		}
 		add := func(kind string, pri crypto.PrivateKey) {
 			sv, err := signature.LoadSignerVerifier(pri, crypto.SHA256)
 			if err != nil {
